@@ -211,7 +211,7 @@ func FuzzScalarDecode_bls12381(f *testing.F) {
 	fuzzFields(f, "bls12381.Fq", "bls12381.Fp", "bls12381.Fp2")
 }
 
-// FuzzGtDecode: Gt.FromBytes under the GT clauses (length, coefficient range, no panic).
+// FuzzGtDecode: Gt.FromBytes under the GT clauses (length, coefficients read modulo p, no panic).
 func FuzzGtDecode_bls12381(f *testing.F) {
 	one := make([]byte, gtLen)
 	one[47] = 1
